@@ -17,7 +17,7 @@ LEVEL = "exploration"
 RULE = ("generated signatures as in C12 x every drawn subset of parameters and the return annotated in source (class, generic, "
         "Optional, string forward reference, NewType) x every drawn subset of positions traced x strategy in {REPLICATE, OMIT, "
         "IGNORE} x outcome in {return, yield, yield+return, yield+None, exception}; exhaustive matrix annotated? x traced? x "
-        "default(None/other/none) x strategy x outcome for one- and two-parameter functions and methods; thorough also through "
+        "default(None/other/none) x strategy x outcome for one- and two-parameter functions and methods; also through "
         "`monkeytype stub` flags on a scratch database. Oracle: per-position decision table written from the statement. "
         "Non-trivial: >=1 annotated and >=1 traced position, not all the same; distinct by digest.")
 ASSUMPTIONS = ["source never annotates self/cls (DESIGN 3.8)", "IGNORE with annotated+untraced position: keeping the source annotation or none are both accepted (DESIGN 3.9)"]
@@ -121,6 +121,47 @@ def table(ctx, spec, mod, funcs, live, stub, strat, text, src):
     ctx.label("positions-annotated-and-traced" if any_anno and any_traced else "positions-one-sided")
 
 
+def cli_path(ctx, funcs, strat, k, sc):
+    """the same decision table on the text printed by `monkeytype stub [--ignore-existing-annotations|--omit-existing-annotations]`
+    for traces that went through a scratch SQLite database"""
+    import importlib
+    import tempfile
+    from monkeytype.stubs import ExistingAnnotationStrategy
+    src = sigsynth.render(funcs, annotate_receiver=strat == EAS.OMIT)
+    for f_ in funcs:
+        f_.pop("_annotate_receiver", None)
+    name, path = sc.new_module(src, stem="mtv_sigcli")
+    spec = ["CLI", funcs, strat.name, k]
+    db = os.path.join(sc.dir, name + ".sqlite3")
+    try:
+        mod = importlib.import_module(name)
+        traces, live = sigsynth.traces_for(mod, funcs, k)
+        if not traces or sigsynth.uses_hostile(funcs):
+            return
+        os.environ.update(MTV_DB=db, MTV_K=str(k), MTV_RW="noop")
+        os.environ.pop("MTV_ONLY", None)
+        store = SQLiteStore.make_store(db)
+        store.add(traces)
+        store.conn.close()
+        flag = {EAS.REPLICATE: [], EAS.IGNORE: ["--ignore-existing-annotations"], EAS.OMIT: ["--omit-existing-annotations"]}[strat]
+        out, err = io.StringIO(), io.StringIO()
+        try:
+            rc = cli.main(["-c", "fx_cfg:CONFIG", "stub"] + flag + [name], out, err)
+        except Exception as e:
+            ctx.label("cli-crash:" + type(e).__name__)
+            return
+        text = out.getvalue()
+        if rc != 0 or not text.strip():
+            return ctx.fail("C13/cli-produced-no-stub", spec, f"rc={rc} {err.getvalue()[:300]}\n{src}")
+        ctx.case(spec, True, ["cli-path", "strategy:" + strat.name])
+        stub = stubread.read_stub(text, vars(mod))
+        table(ctx, spec, mod, funcs, live, stub, strat, text, src)
+    finally:
+        sc.drop(name, path)
+        if os.path.exists(db):
+            os.unlink(db)
+
+
 def exhaustive_matrix(ctx, sc):
     import itertools
     idx = 0
@@ -153,6 +194,13 @@ def shard(ctx):
             return test
         core.run_hypothesis(ctx, factory, 400 if q else 4000)
         exhaustive_matrix(ctx, sc)
+
+        def factory2(ctx):
+            @given(sigsynth.module(), st.sampled_from(list(EAS)), st.sampled_from([0, 0, 3]))
+            def test(funcs, strat, k):
+                cli_path(ctx, funcs, strat, k, sc)
+            return test
+        core.run_hypothesis(ctx, factory2, 40 if q else 400, salt=3)
     finally:
         sc.close()
 
@@ -164,6 +212,8 @@ def run(ctx):
 def replay(ctx, case):
     sc = tracerun.Scratch("c13-")
     try:
+        if case[0] == "CLI":
+            return cli_path(ctx, case[1], EAS[case[2]], case[3], sc)
         c12.check_module(ctx, case[1], EAS[case[2]], case[3], sc, pid="C13", c13=table)
     finally:
         sc.close()
